@@ -601,6 +601,7 @@ func (s *Snapshot) Close() {
 		// Move from live snapshot list to dead list
 		verifYield(vpCloseRetire, unsafe.Pointer(s))
 		s.db.snapshots.Delete(unsafe.Pointer(s), CompareSnapshot, buf, &s.db.snapshots.Stats)
+		verifYield(vpCloseRetire2, unsafe.Pointer(s))
 		s.db.gcsnapshots.Insert(unsafe.Pointer(s), CompareSnapshot, buf, &s.db.gcsnapshots.Stats)
 		verifYield(vpCloseGC, unsafe.Pointer(s))
 		s.db.GC()
